@@ -201,6 +201,60 @@ func (s *session) exec(op string, id int, args ...string) string {
 			s.tr.emit(fmt.Sprintf("assert %d no-callback-after-stop", id), fmt.Sprintf("late=%d", late))
 			return out
 		}
+	case "selfseq":
+		// a sequence whose contents no specification fixes (Range over a collation tree): the implementation against
+		// itself – every complete pass yields the same pairs, an abandoned pass yields their first `stop`, each
+		// yielded key is stored with that value, and nothing is yielded twice
+		n := len(args)
+		sel := args[:n-2]
+		stop, _ := strconv.Atoi(args[n-2])
+		passes, _ := strconv.Atoi(args[n-1])
+		if passes < 2 {
+			passes = 2
+		}
+		tsel := append([]string{}, sel...)
+		if sel[0] == "range" {
+			tsel[1], tsel[2] = tl(sel[1]), tl(sel[2])
+		}
+		cmd = fmt.Sprintf("selfseq %d %s %d %d", id, strings.Join(tsel, " "), stop, passes)
+		out = s.ro(t, func() string {
+			res, late := t.Seq(sel, stop, passes)
+			if late > 0 {
+				return fmt.Sprintf("callback-after-stop:%d", late)
+			}
+			var full []kv
+			haveFull := false
+			for i, p := range res {
+				if i%2 == 1 || stop == 0 {
+					if haveFull && renderKVs(p) != renderKVs(full) {
+						return fmt.Sprintf("pass-%d-differs-from-an-earlier-complete-pass:%s/%s", i, renderKVs(p), renderKVs(full))
+					}
+					full, haveFull = p, true
+				}
+			}
+			for i, p := range res {
+				if i%2 == 0 && stop != 0 {
+					want := full
+					if len(want) > stop {
+						want = want[:stop]
+					}
+					if renderKVs(p) != renderKVs(want) {
+						return fmt.Sprintf("abandoned-pass-%d-is-not-the-start-of-a-complete-pass:%s/%s", i, renderKVs(p), renderKVs(full))
+					}
+				}
+			}
+			seen := map[string]bool{}
+			for _, e := range full {
+				if seen[e.k] {
+					return "key-yielded-twice:" + e.k
+				}
+				seen[e.k] = true
+				if v, ok := t.Get(e.k); !ok || v != e.v {
+					return "yielded-pair-is-not-stored:" + e.k
+				}
+			}
+			return "ok"
+		})
 	default:
 		panic("bad op " + op)
 	}
@@ -297,12 +351,12 @@ func replayFile(path string, s *session) error {
 			s.exec(f[0], id, strip(f[2]))
 		case "min", "max", "size", "dump":
 			s.exec(f[0], id)
-		case "seq":
+		case "seq", "selfseq":
 			args := append([]string{}, f[2:]...)
 			for i := range args {
 				args[i] = strip(args[i])
 			}
-			s.exec("seq", id, args...)
+			s.exec(f[0], id, args...)
 		default:
 			return fmt.Errorf("replay: unknown command %q", cmd)
 		}
@@ -583,7 +637,15 @@ func (h *history) query() {
 	switch {
 	case prof == "range" && roll < 70 || prof != "range" && prof != "prefix" && roll < 10:
 		if isColl {
-			h.s.exec("get", h.id, h.anyKey())
+			// which keys lie between two collation bounds is not fixed by the properties; that the sequence can be
+			// abandoned and restarted is
+			a, b := h.anyKey(), h.anyKey()
+			if collCompare(h.cfg.collName, a, b) > 0 {
+				a, b = b, a
+			}
+			st, ps := h.stopPasses()
+			h.s.exec("selfseq", h.id, "range", a, b, st, ps)
+			h.s.tr.stats["coll-range-selfchecks"]++
 			return
 		}
 		if h.cfg.alpha && r.Intn(6) == 0 {
@@ -848,6 +910,106 @@ func fanKeys(spec string, r *rand.Rand) func(b int) string {
 
 var boundaryBytes = []int{0x00, 0x01, 0x7f, 0x80, 0xfe, 0xff}
 
+// classDance fills one inner node to exactly the capacity of its class, shrinks it into the class below with the
+// old maximum among the victims, and then – before anything else touches the node – deletes and looks up the
+// deleted keys again, and inserts between the survivors and the old maximum. A slot or lane that outlives its
+// child shows here and nowhere else.
+func (h *history) classDance(key func(b int) string) {
+	r := h.r
+	capN := pick(r, []int{16, 16, 48, 4})
+	low := map[int]int{16: 3, 48: 12, 4: 2}[capN]
+	bytes := r.Perm(256)[:capN]
+	if h.cfg.alpha {
+		for i, b := range bytes {
+			if b == 0 {
+				bytes[i] = 1 + r.Intn(255) // the terminator sibling is the fan-out history's business
+			}
+		}
+	}
+	live := map[int]bool{}
+	for _, b := range bytes {
+		if !live[b] {
+			live[b] = true
+			h.insert(key(b))
+		}
+	}
+	h.s.exec("dump", h.id)
+	sorted := func() []int {
+		var ks []int
+		for b := range live {
+			ks = append(ks, b)
+		}
+		sort.Ints(ks)
+		return ks
+	}
+	oldMax := sorted()[len(live)-1]
+	var gone []int
+	del := func(b int) {
+		h.remove(key(b))
+		delete(live, b)
+		gone = append(gone, b)
+	}
+	if r.Intn(2) == 0 {
+		del(oldMax)
+	}
+	for len(live) > low && !h.s.dead[h.id] {
+		ks := sorted()
+		if live[oldMax] && len(live) == low+1 {
+			del(oldMax)
+		} else {
+			del(ks[r.Intn(len(ks)-1)])
+		}
+	}
+	after := func() {
+		h.s.exec("dump", h.id)
+		h.s.exec("size", h.id)
+		h.s.exec("min", h.id)
+		h.s.exec("max", h.id)
+		h.s.exec("seq", h.id, "all", "0", "1")
+		h.s.exec("seq", h.id, "back", "0", "1")
+	}
+	after()
+	// the deleted keys are absent: look them up and delete them again (each a no-op), the old maximum first
+	for i := len(gone) - 1; i >= 0 && !h.s.dead[h.id]; i-- {
+		h.s.exec("get", h.id, key(gone[i]))
+		h.remove(key(gone[i]))
+		if i%4 == 0 {
+			h.s.exec("size", h.id)
+		}
+	}
+	after()
+	for round := 0; round < 3 && !h.s.dead[h.id]; round++ {
+		if len(live) > 2 {
+			ks := sorted()
+			del(ks[r.Intn(len(ks))])
+			after()
+		}
+		ks := sorted()
+		top := ks[len(ks)-1]
+		if top < oldMax {
+			e := top + 1 + r.Intn(oldMax-top)
+			live[e] = true
+			h.insert(key(e))
+			h.s.exec("get", h.id, key(e))
+			after()
+		}
+		for _, b := range gone {
+			if !live[b] {
+				h.s.exec("get", h.id, key(b))
+			}
+		}
+	}
+	// down to one key, looking at the extremes on the way
+	for len(live) > 1 && !h.s.dead[h.id] {
+		ks := sorted()
+		del(ks[len(ks)-1-r.Intn(2)%len(ks)])
+		h.s.exec("min", h.id)
+		h.s.exec("max", h.id)
+		h.s.exec("dump", h.id)
+	}
+	h.s.tr.stats[fmt.Sprintf("class-dances-%d", capN)]++
+}
+
 // runFan drives one inner node through every size class upward and downward, keeping the boundary bytes
 // among the survivors so that every grow/shrink conversion has to carry them over.
 func (h *history) runFan(key func(b int) string) {
@@ -1078,6 +1240,12 @@ func histCfgsFor(family string, r *rand.Rand) []histCfg {
 	case "comp":
 		for i := 0; i < 6; i++ {
 			fs := randSchema(r)
+			// two schemas whose keys are longer than the inline limit are always present
+			if i == 0 {
+				fs = pick(r, [][]string{{"u64", "u32", "u16"}, {"i64", "u64"}, {"u32", "i64", "u8", "u16"}})
+			} else if i == 1 {
+				fs = pick(r, [][]string{{"u16", "s"}, {"i32", "u8", "s"}, {"u64", "s"}})
+			}
 			out = append(out, histCfg{spec: "comp " + strings.Join(fs, ","), unis: compUniverses(fs)})
 		}
 	}
@@ -1135,11 +1303,19 @@ func runTreeMode(cfg treeRunCfg, tr *transcript) {
 					}
 				}
 			}
+			if fam == "comp" && i < 2 {
+				// the long schemas: branch points at every depth in every run
+				h.uni = []universe{hc.unis[2], hc.unis[2], hc.unis[1]}
+			}
 			if r.Intn(3) == 0 {
 				h.uni = append(h.uni, pick(r, hc.unis))
 			}
 			if fk := fanKeys(hc.spec, r); fk != nil && i%3 == 2 {
 				tr.comment(fmt.Sprintf("history tree=%d spec=%q fan-out", nextID, hc.spec))
+				h.classDance(fk)
+				for len(h.order) > 0 && !s.dead[nextID] {
+					h.remove(h.order[len(h.order)-1])
+				}
 				h.runFan(fk)
 			} else {
 				tr.comment(fmt.Sprintf("history tree=%d spec=%q universe=%s ops=%d", nextID, hc.spec, h.uni[0].name, hc.ops))
@@ -1185,6 +1361,66 @@ func rogueStep(r *rand.Rand) {
 	})
 }
 
+// recycleDance: an inner node with a long compressed path is built, visited and released in one tree, and the very
+// next node of that class is built in another tree (or in the same tree, emptied) with a different long path that
+// agrees with the first on the ten inline bytes only; then a key that diverges beyond byte ten is routed through it.
+// Whatever the released node (or anything keyed by its address) remembers of its previous life decides wrongly here.
+func recycleDance(s *session, r *rand.Rand, nextID *int) {
+	kind := pick(r, []string{"alpha string", "alpha bytes"})
+	mk := func() *history {
+		*nextID++
+		s.newTree(*nextID, kind)
+		return &history{s: s, r: r, id: *nextID, cfg: histCfg{spec: kind, alpha: true}, present: map[string]string{}, feat: map[string]bool{}}
+	}
+	a := mk()
+	b := a
+	if r.Intn(3) != 0 {
+		b = mk()
+	}
+	n := pick(r, []int{2, 2, 3, 5, 17, 49})
+	head := string(randBytes(r, []byte("abc"), 10, 10))
+	x := head + strings.Repeat(string(pick(r, []byte("pq"))), 1+r.Intn(12))
+	y := head + strings.Repeat(string(pick(r, []byte("rs"))), 1+r.Intn(12))
+	sibs := r.Perm(200)
+	keyOf := func(stem string, i int) string { return hexLit(append([]byte(stem), byte(1+sibs[i]))) }
+	for i := 0; i < n; i++ {
+		a.insert(keyOf(x, i))
+	}
+	// visit the node: a further sibling, lookups, a prefix query ending inside the path
+	a.insert(keyOf(x, n))
+	s.exec("get", a.id, keyOf(x, 0))
+	s.exec("seq", a.id, "prefix", hexLit([]byte(x[:len(x)-r.Intn(2)])), "0", "1")
+	s.exec("dump", a.id)
+	for len(a.order) > 0 {
+		a.remove(a.order[len(a.order)-1])
+	}
+	s.exec("size", a.id)
+	for i := 0; i < n; i++ {
+		b.insert(keyOf(y, i))
+	}
+	// keys leaving the new path beyond the inline bytes, and one leaving it inside them
+	for j := 0; j < 3; j++ {
+		k := 10 + r.Intn(len(y)-10)
+		b.insert(hexLit(append([]byte(y[:k]), 'z', byte('a'+j))))
+	}
+	b.insert(hexLit(append([]byte(y[:3+r.Intn(7)]), 'z')))
+	s.exec("dump", b.id)
+	s.exec("size", b.id)
+	s.exec("seq", b.id, "all", "0", "1")
+	for _, k := range append([]string{}, b.order...) {
+		s.exec("get", b.id, k)
+	}
+	s.exec("seq", b.id, "prefix", hexLit([]byte(y[:10+r.Intn(len(y)-9)])), "0", "1")
+	for len(b.order) > 0 {
+		b.remove(b.order[r.Intn(len(b.order))])
+	}
+	s.exec("dump", b.id)
+	s.exec("size", b.id)
+	delete(s.trees, a.id)
+	delete(s.trees, b.id)
+	s.tr.stats["multi-recycle-dances"]++
+}
+
 // runMultiMode interleaves operations over several live trees of mixed kinds (C12).
 func runMultiMode(cfg treeRunCfg, tr *transcript) {
 	r := rand.New(rand.NewSource(cfg.seed))
@@ -1192,6 +1428,7 @@ func runMultiMode(cfg treeRunCfg, tr *transcript) {
 	nextID := 0
 	groups := cfg.hists
 	for g := 0; g < groups; g++ {
+		recycleDance(s, r, &nextID)
 		n := 2 + r.Intn(cfg.multi-1)
 		var hs []*history
 		for i := 0; i < n; i++ {
@@ -1254,6 +1491,9 @@ func runMultiMode(cfg treeRunCfg, tr *transcript) {
 					}
 					tr.stats["multi-nested-passes"]++
 				}
+			}
+			if r.Intn(12) == 0 {
+				recycleDance(s, r, &nextID)
 			}
 			if r.Intn(4) == 0 {
 				// a tree misused with keys outside its contract (byte strings with embedded 0x00, one a prefix of
